@@ -174,32 +174,64 @@ class Scan:
 
 
 class Intern:
+    """strings -> small numbers; the table is shipped to Coq once per coqc run as one decoded string literal"""
+
     def __init__(self):
         self.ids = {}
 
-    def t(self, s):
+    def n(self, s):
         if s not in self.ids:
-            self.ids[s] = "t%d" % len(self.ids)
+            self.ids[s] = len(self.ids)
         return self.ids[s]
 
-    def tl(self, l):
-        return "[" + "; ".join(self.t(x) for x in l) + "]" if l else "(@nil text)"
+    def ns(self, l):
+        return ",".join(str(self.n(x)) for x in l)
 
-    def defs(self):
-        return "".join("Definition %s : text := %s.\n" % (v, coq.ctext(k)) for k, v in self.ids.items())
+    def names_defs(self):
+        """Coq definitions of the string table, as several short string literals (Coq reads long string literals in quadratic time)"""
+        chunks, cur = [], []
+        for s in self.ids:
+            cur.append(",".join(str(ord(c)) for c in s))
+            if sum(len(x) + 1 for x in cur) > 1200:
+                chunks.append(cur)
+                cur = []
+        if cur:
+            chunks.append(cur)
+        out = "".join('Definition c25_n%d := "%s"%%string.\n' % (i, "|".join(ch)) for i, ch in enumerate(chunks))
+        return out + "Definition c25_names : list text := flat_map (fun s => map (fun e => hd [] e) (decode s)) [%s].\n" % "; ".join(
+            "c25_n%d" % i for i in range(len(chunks)))
 
 
-def dir_lit(node, it):
-    loads = "[" + "; ".join("(%s, %s)" % (it.t(f), "None" if s is None else "Some %d" % s) for f, s in node["loads"]) + "]" \
-        if node["loads"] else "(@nil (text * option nat))"
-    subs = "[" + "; ".join("(%s, %s)" % (it.t(n), dir_lit(s, it)) for n, s in node["subs"]) + "]" if node["subs"] else "(@nil (text * dir))"
-    return "(Dir %s %s %s)" % (it.tl(node["files"]), loads, subs)
+# Cases travel as Base/Decode.v strings (Coq reads a string literal in linear time, a nested list/tuple literal far slower):
+#   "<ndirs>" | one entry per directory in preorder "parent,name;files;loader-file,spec+1 ..." | table rows "spec,parts.." joined by ';' |
+#   one entry per query "cwd,path,ine,ign,wp,cnef,has_expected;exts;expected"
+def case_string(scan, queries, it):
+    ents = []
+
+    def flat(node, parent, name):
+        idx = len(ents)
+        ents.append("%d,%d;%s;%s" % (parent, it.n(name), it.ns(node["files"]),
+                                     ",".join("%d,%d" % (it.n(f), 0 if sp is None else sp + 1) for f, sp in node["loads"])))
+        for n, sub in node["subs"]:
+            flat(sub, idx, n)
+
+    flat(scan.root, 0, "")
+    tbl = ";".join("%d,%s" % (sid, it.ns(parts)) for sid, parts in scan.table)
+    qs = ["%d,%d,%d,%d,%d,%d,%d;%s;%s" % (it.n(q["abs_cwd"]), it.n(q["path"]), q["ine"], q["ign"], it.n(q["abs_wp"]), q["cnef"], q["real"] is not None,
+                                          it.ns(q["exts"]), it.ns(q["real"] or [])) for q in queries]
+    ents = [str(len(ents))] + ents + [tbl] + qs
+    chunks, cur = [], []
+    for e in ents:
+        cur.append(e)
+        if sum(len(x) + 1 for x in cur) > 1200:
+            chunks.append("|".join(cur))
+            cur = []
+    if cur:
+        chunks.append("|".join(cur))
+    return chunks
 
 
-def table_lit(table, it):
-    return "[" + "; ".join("(%d, %s)" % (sid, it.tl(parts)) for sid, parts in table) + "]" if table else "(@nil (nat * list text))"
-
-
+COQ_IMPORTS = ["From Coq Require Import String.", "From Coq Require Import List.", "Base.Decode", "Model.Discovery"]
 COQ_DEFS = """
 Definition c25_ok (r : res (list (list text * text))) (cwd : text) (e : option (list text)) : bool :=
   match r, e with
@@ -216,13 +248,48 @@ Definition c25_show (c : dir * list (nat * list text) * list c25_q) : list (res 
   let '(root, tbl, qs) := c in
   map (fun q : c25_q => let '(cwd, path, ine, ign, wp, exts, cnef, e) := q in
                         paths_from_path (tbl_matches tbl) cwd root path ine ign wp exts cnef) qs.
+@@NAMES@@
+Definition tx (i : N) : text := nth (N.to_nat i) c25_names [].
+Fixpoint c25_pairs (l : list N) : list (N * N) := match l with a :: b :: r => (a, b) :: c25_pairs r | _ => [] end.
+Fixpoint c25_build (ents : list (list (list N))) (fuel i : nat) : dir :=
+  match fuel with
+  | O => Dir [] [] []
+  | S f =>
+      match nth i ents [] with
+      | _ :: files :: loads :: _ =>
+          Dir (map tx files)
+              (map (fun ab => (tx (fst ab), if N.eqb (snd ab) 0 then None else Some (N.to_nat (snd ab - 1)))) (c25_pairs loads))
+              (flat_map (fun j => match nth j ents [] with
+                                  | (p :: nm :: _) :: _ =>
+                                      if Nat.eqb (N.to_nat p) i && negb (Nat.eqb j 0) then [(tx nm, c25_build ents f j)] else []
+                                  | _ => []
+                                  end) (seq 0 (length ents)))
+      | _ => Dir [] [] []
+      end
+  end.
+Definition c25_decode_q (e : list (list N)) : c25_q :=
+  match e with
+  | [cwd; path; ine; ign; wp; cnef; hasexp] :: exts :: expd :: _ =>
+      (tx cwd, tx path, negb (N.eqb ine 0), negb (N.eqb ign 0), tx wp, map tx exts, negb (N.eqb cnef 0),
+       if N.eqb hasexp 0 then None else Some (map tx expd))
+  | _ => ([], [], false, false, [], [], false, Some [[0%N]])
+  end.
+Definition c25_decode (ss : list String.string) : dir * list (nat * list text) * list c25_q :=
+  match flat_map decode ss with
+  | ([nd] :: _) :: rest =>
+      let n := N.to_nat nd in
+      match skipn n rest with
+      | tbl :: qs => (c25_build (firstn n rest) n 0,
+                      flat_map (fun row => match row with sp :: parts => [(N.to_nat sp, map tx parts)] | [] => [] end) tbl,
+                      map c25_decode_q qs)
+      | [] => (Dir [] [] [], [], [])
+      end
+  | _ => (Dir [] [] [], [], [])
+  end.
+Definition c25_run (ss : list String.string) : list bool := c25_case (c25_decode ss).
+Definition c25_run_show (ss : list String.string) := c25_show (c25_decode ss).
+Open Scope string_scope.
 """
-
-
-def query_lit(q, it):
-    e = "None" if q["real"] is None else "(Some %s)" % it.tl(q["real"])
-    return "(%s, %s, %s, %s, %s, %s, %s, %s)" % (it.t(q["abs_cwd"]), it.t(q["path"]), coq.cbool(q["ine"]), coq.cbool(q["ign"]), it.t(q["abs_wp"]),
-                                                 it.tl(q["exts"]), coq.cbool(q["cnef"]), e)
 
 
 # --------------------------------------------------------------------------------------------------------------------------------
@@ -325,21 +392,88 @@ def expected_selection(top, q, ignore_specs):
 
 # --------------------------------------------------------------------------------------------------------------------------------
 
-class Runner:
-    def __init__(self, ctx, top):
-        self.ctx = ctx
-        self.top = top
+class Queue:
+    """model evaluations queued for a few large coqc runs (one coqc start costs seconds)"""
+
+    def __init__(self, ctx, coq_ok):
+        self.ctx, self.coq_ok = ctx, coq_ok
         self.it = Intern()
-        self.lits = []      # Coq literal per case
-        self.meta = []      # (case description, queries) per case
-        self.calls = 0
+        self.lits, self.meta = [], []
+        self.done = 0
+        self.canary = None
+
+    def add(self, lit, meta, scan):
+        if self.coq_ok:
+            self.lits.append(lit)
+            self.meta.append(meta)
+            q0 = meta["queries"][0]
+            if self.canary is None and q0["real"] is not None:
+                # a case again with a wrong expectation for its first query; the model comparison must say false
+                self.canary = case_string(scan, [dict(q0, real=list(q0["real"]) + ["canary.sql"])], self.it)
+
+    def flush(self, force=True):
+        ctx = self.ctx
+        if not self.lits or (not force and len(self.lits) < 1500):
+            return
+        from concurrent.futures import ThreadPoolExecutor
+        lits, meta = self.lits, self.meta
+        self.lits, self.meta = [], []
+        canary, self.canary = self.canary, None
+        defs = COQ_DEFS.replace("@@NAMES@@", self.it.names_defs())
+        t0 = coq.now()
+
+        def one(cases, func="c25_run"):
+            # every case = a few short string definitions + the list of their names
+            d, terms = [], []
+            for ci, chunks in enumerate(cases):
+                for k, ch in enumerate(chunks):
+                    d.append('Definition c25_k%d_%d := "%s".\n' % (ci, k, ch))
+                terms.append("[" + "; ".join("c25_k%d_%d" % (ci, k) for k in range(len(chunks))) + "]")
+            return coq.eval_terms(COQ_IMPORTS, ["map %s %s" % (func, coq.clist(terms))], defs=defs + "".join(d))[0]
+
+        allc = lits + ([canary] if canary else [])
+        shards = list(coq.chunked(allc, max(1, min(250, (len(allc) + 3) // 4))))
+        with ThreadPoolExecutor(max_workers=4) as ex:
+            res = [r for part in ex.map(one, shards) for r in part]
+        ctx.coverage_extra["coq_eval_s"] = round(ctx.coverage_extra.get("coq_eval_s", 0) + coq.now() - t0, 1)
+        if len(res) != len(allc):
+            raise coq.CoqError("result length mismatch")
+        if canary:
+            if res[-1] != [False]:
+                ctx.broken_obligation("canary: the model comparison accepted a wrong expectation", repr(canary)[:2000])
+            res = res[:-1]
+        for lit, bools, m in zip(lits, res, meta):
+            queries = m["queries"]
+            if len(bools) != len(queries):
+                raise coq.CoqError("result length mismatch")
+            self.done += len(queries)
+            for qi, (b, q) in enumerate(zip(bools, queries)):
+                if b is not True:
+                    mo = one([lit], "c25_run_show")[0][qi]
+                    if isinstance(mo, tuple) and mo[0] == "Ok":
+                        mo = ["".join(chr(c) for c in t) for t in mo[1]]
+                    ctx.broken_obligation(
+                        "correspondence Model.Discovery.paths_from_path vs discovery.paths_from_path",
+                        json.dumps({"tree": m["desc"], "shape": m["shape"], "files": m["files"], "ignore_files": m["ignores"],
+                                    "query": {k: v for k, v in q.items() if k != "ids"}, "model": mo, "impl": q["real"]}, default=repr))
+                    return
+        ctx.coverage_extra["model_vs_impl_calls"] = self.done
+
+
+def _rel(top, x):
+    return x.replace(top, "<top>")
+
+
+class Runner:
+    def __init__(self, ctx, queue, top):
+        self.ctx, self.queue, self.top = ctx, queue, top
 
     def run_case(self, desc, shape, ignores, queries, files=None):
         """the tree of `shape` is on disk already; write the ignore files, run every query on the real code, evaluate the oracles, queue the
         model evaluation, remove the ignore files"""
         from sqlfluff.core.errors import SQLFluffUserError
         from sqlfluff.core.linter import discovery
-        ctx, top = self.ctx, self.top
+        ctx, top, it = self.ctx, self.top, self.queue.it
         write_ignores(top, ignores)
         home = os.getcwd()
         try:
@@ -362,99 +496,77 @@ class Runner:
                     q["real"] = discovery.paths_from_path(q["path"], **kw)
                 except SQLFluffUserError:
                     q["real"] = None
-                self.calls += 1
                 if q["cnef"]:
                     scan.add_candidate(os.path.abspath(q["path"]))
-                ctx.case((desc, q["cwd"], q["wp"], q["path"], q["ine"], q["ign"], tuple(q["exts"]), q["cnef"]) if scan.nmatch else None,
-                         bucket="spelling=%s" % q["spelling"],
-                         sample={"tree": desc, "cwd": q["cwd"], "path": q["path"].replace(top, "<top>"), "selected": q["real"] and
-                                 [r.replace(top, "<top>") for r in q["real"]]} if scan.nmatch and q["spelling"] == "dot" and self.calls % 97 == 0 else None)
+                nt = scan.nmatch > 0
+                ctx.case((desc, json.dumps(ignores, sort_keys=True), q["cwd"], q["wp"], q["path"], q["ine"], q["ign"], tuple(q["exts"]), q["cnef"])
+                         if nt else None, bucket="spelling=%s" % q["spelling"],
+                         sample={"tree": desc, "ignore_files": ignores, "cwd": q["cwd"], "path": _rel(top, q["path"]),
+                                 "selected": q["real"] and [_rel(top, x) for x in q["real"]]}
+                         if nt and q["spelling"] == "dot" and ctx.evaluations % 97 == 0 else None)
                 if q["real"] is not None and q.get("oracle", True):
-                    q["ids"] = frozenset(os.path.normpath(os.path.join(q["abs_cwd"], r)) for r in q["real"])
+                    q["ids"] = frozenset(os.path.normpath(os.path.join(q["abs_cwd"], x)) for x in q["real"])
                     groups.setdefault((q["cwd"], q["wp"], q["target"], q["ine"], q["ign"], tuple(q["exts"]), q["cnef"]), []).append(q)
             os.chdir(home)
             self._oracles(desc, shape, ignores, files, groups, ignore_specs)
-            self.lits.append("(%s, %s, [%s])" % (dir_lit(scan.root, self.it), table_lit(scan.table, self.it),
-                                                 "; ".join(query_lit(q, self.it) for q in queries)))
-            self.meta.append((desc, shape, ignores, files, queries))
+            self.queue.add(case_string(scan, queries, it),
+                           {"desc": desc, "shape": shape, "ignores": ignores, "files": files, "queries": queries}, scan)
         finally:
             os.chdir(home)
             remove_ignores(top, ignores)
 
     def _oracles(self, desc, shape, ignores, files, groups, ignore_specs):
         ctx, top = self.ctx, self.top
-        for key, qs in groups.items():
+        for _key, qs in groups.items():
             ref = next((q for q in qs if q["spelling"] == "absolute"), qs[0])
             exp, why = expected_selection(top, ref, ignore_specs) if not ref["cnef"] else (None, {})
+            tdir = os.path.join(top, ref["target"])
             for q in qs:
                 rep = {"input": {"shape": shape, "files": files or "a.sql,b.sql,c.txt in every directory", "ignore_files": ignores,
-                                 "cwd": q["cwd"], "working_path": q["wp"], "path": q["path"].replace(top, "<top>"),
-                                 "reference_path": ref["path"].replace(top, "<top>")},
-                       "selected": sorted(x.replace(top, "<top>") for x in q["ids"]),
-                       "selected_for_reference_spelling": sorted(x.replace(top, "<top>") for x in ref["ids"])}
-                if q["ids"] != ref["ids"]:
-                    # O1: same target, same working directory, different spelling, different selection
-                    extra, missing = q["ids"] - ref["ids"], ref["ids"] - q["ids"]
-                    attrs = {"spelling": "relative" if q["spelling"] in ("relative", "dot", "dot-slash", "trailing-slash") else q["spelling"],
-                             "direction": "extra" if extra and not missing else "missing" if missing and not extra else "both"}
-                    tdir = os.path.join(top, q["target"])
-                    if extra and not missing and exp is not None and all(f in why for f in extra):
-                        # the reference spelling excludes them because of an ignore file: where is it?
-                        ds = set()
-                        for f in extra:
-                            d = why[f]
-                            ds.add("above the given path" if not (d + "/").startswith(tdir + "/") else "in the given path" if d == tdir
-                                   else ">=1 below the given path")
-                        attrs["ignore_file_depth"] = "|".join(sorted(ds))
-                    elif missing and not extra:
-                        # which ignore file excludes them for this spelling? (one that is not in a directory containing the file)
-                        cwd_abs = os.path.join(top, q["cwd"])
-                        ds = set()
-                        for f in missing:
-                            for d, specs in ignore_specs.items():
-                                rel = os.path.relpath(f, d)
-                                if rel.startswith("..") and (cwd_abs + "/").startswith(d + "/") and any(s.match_file(rel) for s in specs):
-                                    ds.add("between the given path and the working directory, not above the file")
-                        attrs["ignore_file_location"] = "|".join(sorted(ds)) or "?"
-                    rep["extra"] = sorted(x.replace(top, "<top>") for x in extra)
-                    rep["missing"] = sorted(x.replace(top, "<top>") for x in missing)
-                    ctx.violation("spelling-dependent-selection",
-                                  "paths_from_path(%r) and paths_from_path(%r) name the same directory from the same working directory but select "
-                                  "different files" % (rep["input"]["path"], rep["input"]["reference_path"]), rep, attrs=attrs)
-                elif exp is not None and q["ids"] != exp:
-                    rep["expected"] = sorted(x.replace(top, "<top>") for x in exp)
+                                 "cwd": q["cwd"], "working_path": q["wp"], "path": _rel(top, q["path"]), "reference_path": _rel(top, ref["path"]),
+                                 "ignore_files_flag": q["ign"], "exts": q["exts"]},
+                       "selected": sorted(_rel(top, x) for x in q["ids"]),
+                       "selected_for_reference_spelling": sorted(_rel(top, x) for x in ref["ids"])}
+                extra, missing = q["ids"] - ref["ids"], ref["ids"] - q["ids"]
+                # O1: same target, same working directory and working path, different spelling => same selection
+                what = ("paths_from_path(%r) and paths_from_path(%r) name the same path from the same working directory but select different "
+                        "files" % (rep["input"]["path"], rep["input"]["reference_path"]))
+                spelling = "absolute" if q["spelling"].startswith("absolute") else "relative"
+                if extra:
+                    # the reference spelling leaves them out: because of which ignore file?
+                    ds = set()
+                    for f in extra:
+                        d = why.get(f)
+                        ds.add("?" if d is None else "above the given path" if not (d + "/").startswith(tdir + "/") else
+                               "in the given path" if d == tdir else ">=1 below the given path")
+                    ctx.violation("spelling-dependent-selection", what + " (more files than the absolute spelling)",
+                                  dict(rep, extra=sorted(_rel(top, x) for x in extra)),
+                                  attrs={"spelling": spelling, "dotdot": q["spelling"] == "dotdot", "direction": "extra",
+                                         "ignore_file_depth": "|".join(sorted(ds))})
+                if missing:
+                    # this spelling leaves them out: because of which ignore file?
+                    ds = set()
+                    for f in missing:
+                        found = "?"
+                        for d, specs in ignore_specs.items():
+                            rel = os.path.relpath(f, d)
+                            if any(s.match_file(rel) for s in specs):
+                                if rel.startswith(".."):
+                                    found = "in a directory that does not contain the file"
+                                elif not (d + "/").startswith(tdir + "/") and found == "?":
+                                    found = "above the given path"
+                        ds.add(found)
+                    ctx.violation("spelling-dependent-selection", what + " (fewer files than the absolute spelling)",
+                                  dict(rep, missing=sorted(_rel(top, x) for x in missing)),
+                                  attrs={"spelling": spelling, "dotdot": q["spelling"] == "dotdot", "direction": "missing",
+                                         "ignore_file_location": "|".join(sorted(ds))})
+                if not extra and not missing and exp is not None and q["ids"] != exp:
+                    # O2 (a spelling that deviates from the reference spelling is already reported above)
+                    rep["expected"] = sorted(_rel(top, x) for x in exp)
                     ctx.violation("selection-not-exact", "the selected files are not exactly the files with a configured extension that no applicable "
                                   "ignore file matches", rep,
                                   attrs={"direction": "extra" if q["ids"] - exp and not exp - q["ids"] else "missing" if exp - q["ids"] and
                                          not q["ids"] - exp else "both", "spelling": q["spelling"]})
-
-    def flush_model(self, tag):
-        """evaluate the queued cases in Coq and compare"""
-        ctx = self.ctx
-        if not self.lits:
-            return
-        defs = self.it.defs() + COQ_DEFS
-        try:
-            res = coq.eval_sharded(["Model.Discovery"], "c25_case", self.lits, shard=max(1, min(60, (len(self.lits) + 3) // 4)), jobs=4, defs=defs)
-            for ci, (bools, (desc, shape, ignores, files, queries)) in enumerate(zip(res, self.meta)):
-                if len(bools) != len(queries):
-                    raise coq.CoqError("result length mismatch")
-                for b, q in zip(bools, queries):
-                    if b is not True:
-                        shown = coq.eval_terms(["Model.Discovery"], ["c25_show %s" % self.lits[ci]], defs=defs)[0]
-                        qi = queries.index(q)
-                        m = shown[qi]
-                        model = "".join(map(chr, [])) if False else m
-                        if isinstance(m, tuple) and m[0] == "Ok":
-                            model = ["".join(chr(c) for c in t) for t in m[1]]
-                        ctx.broken_obligation(
-                            "correspondence Model.Discovery.paths_from_path vs discovery.paths_from_path (%s)" % tag,
-                            json.dumps({"tree": desc, "shape": shape, "files": files, "ignore_files": ignores,
-                                        "query": {k: v for k, v in q.items() if k not in ("ids",)}, "model": model, "impl": q["real"]}, default=repr))
-                        return
-            ctx.count("model_vs_impl_calls", sum(len(m[4]) for m in self.meta))
-        finally:
-            self.lits, self.meta = [], []
 
 
 # --------------------------------------------------------------------------------------------------------------------------------
@@ -466,10 +578,10 @@ def one_pattern_ignores(dirs, loader=".sqlfluffignore"):
             yield {d: {loader: [p] if loader != ".sqlfluff" else p}}
 
 
-def two_dir_ignores(pairs):
+def two_dir_ignores(pairs, second=PATTERNS):
     for d1, d2 in pairs:
         for p1 in PATTERNS:
-            for p2 in PATTERNS:
+            for p2 in second:
                 yield {d1: {".sqlfluffignore": [p1]}, d2: {".sqlfluffignore": [p2]}}
 
 
@@ -486,173 +598,147 @@ def ancestor_pairs(dirs):
 
 
 def helper_correspondence(ctx, coq_ok):
-    """posixpath fragments of the model vs the real posixpath, on an exhaustive small alphabet"""
+    """loader names, and the posixpath/pathlib fragments of the model vs the real ones on every string over {/ . a} up to length 5 (6)"""
     import posixpath
+    from pathlib import PurePosixPath
+    from sqlfluff.core.linter import discovery
     if not coq_ok:
         return
     alphabet = ["/", ".", "a"]
     strs = [""] + ["".join(t) for n in range(1, 6 if ctx.tier == "quick" else 7) for t in itertools.product(alphabet, repeat=n)]
     cwd = "/c/d"
-    lits = [coq.ctext(s) for s in strs]
-    func = ("fun s => (normpath s, abspath %s s, join %s s, join s %s, relparts %s s %s, (isabs s, pure_parts s))"
+    func = ("fun s => (normpath s, abspath %s s, join %s s, join s %s, relparts %s s %s, (isabs s, pure_parts s, resolve_parts (pure_parts s)))"
             % (coq.ctext(cwd), coq.ctext("x/"), coq.ctext("y"), coq.ctext(cwd), coq.ctext("/c/e")))
-    res = coq.eval_sharded(["Model.Discovery"], func, lits, shard=400, jobs=4)
-    home = os.getcwd()
-    fake = {"cwd": cwd}
+    terms = ["loader_names"] + ["map (%s) %s" % (func, coq.clist([coq.ctext(s) for s in ch])) for ch in coq.chunked(strs, 300)]
+    vals = coq.eval_terms(["Model.Discovery"], terms)
+    dec = lambda t: "".join(chr(c) for c in t)
+    if [dec(t) for t in vals[0]] != list(discovery.ignore_file_loaders.keys()):
+        ctx.broken_obligation("constant Model.Discovery.loader_names vs discovery.ignore_file_loaders", repr(list(discovery.ignore_file_loaders)))
+    res = [r for v in vals[1:] for r in v]
     real_getcwd = os.getcwd
-    os.getcwd = lambda: fake["cwd"]   # posixpath.abspath/relpath read os.getcwd()
+    os.getcwd = lambda: cwd   # posixpath.abspath/relpath read os.getcwd()
     try:
         for s, r in zip(strs, res):
-            dec = lambda t: "".join(chr(c) for c in t)
-            from pathlib import PurePosixPath
+            model = (dec(r[0]), dec(r[1]), dec(r[2]), dec(r[3]), [dec(x) for x in r[4]] or ["."], r[5][0], [dec(x) for x in r[5][1]],
+                     [dec(x) for x in r[5][2]])
             pp = PurePosixPath(s)
+            parts = [p for p in pp.parts if p != pp.anchor]
+            res_parts = []
+            for p in parts:
+                if p == "..":
+                    res_parts = res_parts[:-1]
+                else:
+                    res_parts.append(p)
             real = (posixpath.normpath(s), posixpath.abspath(s), posixpath.join("x/", s), posixpath.join(s, "y"),
-                    posixpath.relpath(s, "/c/e").split("/") if s else None, (posixpath.isabs(s), [p for p in pp.parts if p != pp.anchor]))
-            model = (dec(r[0]), dec(r[1]), dec(r[2]), dec(r[3]), [dec(x) for x in r[4]] or ["."], (r[5][0], [dec(x) for x in r[5][1]]))
+                    posixpath.relpath(s, "/c/e").split("/") if s else model[4], posixpath.isabs(s), parts, res_parts)
             ctx.case(None, bucket="posixpath-helper")
-            if s and s.startswith("//") and not s.startswith("///"):
-                real = real[:5] + ((real[5][0], model[5][1]),)   # pathlib keeps a '//' anchor; such spellings are not generated
-            if real[4] is None:
-                real = real[:4] + (model[4],) + real[5:]
             if real != model:
-                ctx.broken_obligation("correspondence Model.Discovery posixpath fragment vs posixpath", json.dumps({"input": s, "model": model, "impl": real}))
+                ctx.broken_obligation("correspondence Model.Discovery posixpath fragment vs posixpath/pathlib",
+                                      json.dumps({"input": s, "model": model, "impl": real}))
                 break
     finally:
         os.getcwd = real_getcwd
-        assert os.getcwd() == home
 
 
 def run(ctx, coq_ok):
     import logging
-    from sqlfluff.core.linter import discovery
     logging.getLogger("sqlfluff.linter").setLevel(logging.ERROR)   # the "exact file path ... was ignored" warning is not part of the property
-    if coq_ok:
-        names = coq.eval_terms(["Model.Discovery"], ["loader_names"])[0]
-        if ["".join(chr(c) for c in t) for t in names] != list(discovery.ignore_file_loaders.keys()):
-            ctx.broken_obligation("constant Model.Discovery.loader_names vs discovery.ignore_file_loaders", repr(list(discovery.ignore_file_loaders)))
     helper_correspondence(ctx, coq_ok)
     quick = ctx.tier == "quick"
-    tmp = tempfile.mkdtemp(prefix="verif-c25-", dir=os.environ.get("TMPDIR") or "/var/tmp")
-    tmp = os.path.realpath(tmp)
+    tmp = os.path.realpath(tempfile.mkdtemp(prefix="verif-c25-", dir=os.environ.get("TMPDIR") or "/var/tmp"))
     assert not tmp.startswith("/repo") and not tmp.startswith("/verif")
     serial = [0]
+    queue = Queue(ctx, coq_ok)
 
     def fresh(shape, files=None):
         serial[0] += 1
         top = os.path.join(tmp, "t%d" % serial[0])
         os.makedirs(top)
         build_shape(top, shape, files)
-        return top
+        return Runner(ctx, queue, top)
 
+    R = ROOT
     try:
-        # ---- A. full tree of depth 2: one ignore file anywhere; two ignore files on an ancestor chain; two-line files
+        # ---- A. full tree of depth 2: one ignore file anywhere; two ignore files; two-line files; working paths
         shape = full_shape(2)
         dirs = shape_dirs(shape)
-        top = fresh(shape)
-        r = Runner(ctx, top)
-        cwds = [ROOT, ROOT + "/sub", ROOT + "/sub/sub", OUTSIDE]
-        ftargets = [ROOT + "/sub/a.sql", ROOT + "/sub/sub/b.sql", ROOT + "/oth/c.txt"]
-        qs_full = lambda: grid_queries(dirs, cwds, ftargets)
+        r = fresh(shape)
+        cwds = [R, R + "/sub", OUTSIDE] if quick else [R, R + "/sub", R + "/sub/sub", OUTSIDE]
+        ftargets = [R + "/sub/a.sql", R + "/sub/sub/b.sql", R + "/oth/c.txt"]
         for ig in one_pattern_ignores(dirs):
-            r.run_case("full2", shape, ig, qs_full())
-        for ig in one_pattern_ignores([ROOT, ROOT + "/sub"] if quick else dirs, loader=".sqlfluff"):
-            r.run_case("full2", shape, ig, qs_full())
-        if coq_ok:
-            r.flush_model("full depth-2 tree, one ignore file")
-        chain = [(ROOT, ROOT + "/sub"), (ROOT + "/sub", ROOT + "/sub/sub"), (ROOT, ROOT + "/sub/sub"), (ROOT + "/sub", ROOT + "/sub/oth")]
-        pairs = chain if quick else [(a, b) for a in dirs for b in dirs if a < b]
-        for ig in two_dir_ignores(pairs):
-            r.run_case("full2", shape, ig, grid_queries(dirs, [ROOT, ROOT + "/sub"] if quick else cwds))
-        if coq_ok:
-            r.flush_model("full depth-2 tree, two ignore files")
-        for ig in two_line_ignores([ROOT + "/sub"] if quick else [ROOT, ROOT + "/sub", ROOT + "/sub/sub"]):
-            r.run_case("full2", shape, ig, grid_queries(dirs, [ROOT]))
+            r.run_case("full2", shape, ig, grid_queries(dirs, cwds, ftargets))
+        for ig in one_pattern_ignores([R, R + "/sub"] if quick else dirs, loader=".sqlfluff"):
+            r.run_case("full2", shape, ig, grid_queries(dirs, cwds[:2] if quick else cwds, ftargets))
+        chain = [(R, R + "/sub"), (R + "/sub", R + "/sub/sub"), (R, R + "/sub/sub"), (R + "/sub", R + "/sub/oth")]
+        for ig in two_dir_ignores(chain, ["a.sql", "sub/", "!a.sql"]) if quick else two_dir_ignores([(a, b) for a in dirs for b in dirs if a < b]):
+            r.run_case("full2", shape, ig, grid_queries(dirs, [R] if quick else cwds))
+            queue.flush(force=False)
+        for ig in two_line_ignores([R + "/sub"] if quick else [R, R + "/sub", R + "/sub/sub"]):
+            r.run_case("full2", shape, ig, grid_queries(dirs, [R]))
         # working path different from the working directory (a process that changed directory), and the import-time default
-        for ig in one_pattern_ignores([ROOT, ROOT + "/sub", ROOT + "/oth"]):
-            qs = grid_queries([ROOT + "/sub", ROOT + "/sub/sub"], [ROOT + "/sub"], wps=(ROOT, ROOT + "/oth", ROOT + "/sub/sub", OUTSIDE, None))
-            r.run_case("full2", shape, ig, qs)
-        if coq_ok:
-            r.flush_model("full depth-2 tree, two-line files and working paths")
-        shutil.rmtree(top)
+        for ig in one_pattern_ignores([R, R + "/sub", R + "/oth"]):
+            r.run_case("full2", shape, ig, grid_queries([R + "/sub", R + "/sub/sub"], [R + "/sub"], wps=(R, R + "/oth", R + "/sub/sub", OUTSIDE, None)))
+        shutil.rmtree(r.top)
 
         # ---- B. depth 3
         shape = full_shape(3)
         dirs = shape_dirs(shape)
-        top = fresh(shape)
-        r = Runner(ctx, top)
-        spine = [ROOT, ROOT + "/sub", ROOT + "/sub/sub", ROOT + "/sub/sub/sub"]
+        r = fresh(shape)
+        spine = [R, R + "/sub", R + "/sub/sub", R + "/sub/sub/sub"]
         for ig in one_pattern_ignores(spine if quick else dirs):
-            r.run_case("full3", shape, ig, grid_queries(spine + [ROOT + "/sub/oth", ROOT + "/oth"] if quick else dirs, [ROOT, ROOT + "/sub"] if quick else
-                                                         [ROOT, ROOT + "/sub", ROOT + "/sub/sub", ROOT + "/oth/sub/oth"]))
+            r.run_case("full3", shape, ig, grid_queries(spine + [R + "/sub/oth", R + "/oth"] if quick else dirs,
+                                                         [R, R + "/sub"] if quick else [R, R + "/sub", R + "/sub/sub", R + "/oth/sub/oth"]))
+            queue.flush(force=False)
         if not quick:
-            if coq_ok:
-                r.flush_model("full depth-3 tree, one ignore file")
-            for ig in two_dir_ignores(ancestor_pairs(spine + [ROOT + "/oth", ROOT + "/oth/sub"])):
-                r.run_case("full3", shape, ig, grid_queries(dirs, [ROOT, ROOT + "/sub"]))
-        if coq_ok:
-            r.flush_model("full depth-3 tree")
-        shutil.rmtree(top)
+            for ig in two_dir_ignores(ancestor_pairs(spine + [R + "/oth", R + "/oth/sub"])):
+                r.run_case("full3", shape, ig, grid_queries(dirs, [R, R + "/sub"]))
+                queue.flush(force=False)
+        shutil.rmtree(r.top)
 
-        # ---- C. every sub-shape
-        shapes = all_shapes(2) if quick else all_shapes(3)
-        for si, shape in enumerate(shapes):
+        # ---- C. every sub-shape of the full tree (depth 2 quick, depth 3 thorough), one ignore file
+        for si, shape in enumerate(all_shapes(2) if quick else all_shapes(3)):
             dirs = shape_dirs(shape)
             if len(dirs) < 2:
                 continue
-            top = fresh(shape)
-            r2 = Runner(ctx, top)
-            inner = [d for d in dirs if d != ROOT]
-            cands = [ROOT] + inner if (quick or shape_depth(shape) <= 2) else [d for d in inner if d.count("/") == 1]
-            pats = PATTERNS if (quick or shape_depth(shape) <= 2) else ["a.sql", "sub/"]
-            for d in cands:
-                for p in pats:
-                    r2.run_case("shape%d" % si, shape, {d: {".sqlfluffignore": [p]}},
-                                grid_queries(dirs, [ROOT] if not quick and shape_depth(shape) > 2 else [ROOT, inner[0]]))
-            r.lits += r2.lits
-            r.meta += r2.meta
-            r.it.ids.update({})  # (interning is per runner; merge below)
-            if r2.lits:
-                # evaluate per shape group lazily: merge interners by re-using r2's own
-                if coq_ok and (len(r2.lits) and (si % 8 == 7 or si == len(shapes) - 1)):
-                    pass
-            # simplest: evaluate each shape's cases with its own interner
-            r.lits, r.meta = [], []
-            if coq_ok:
-                r2.flush_model("sub-shapes")
-            shutil.rmtree(top)
+            deep = shape_depth(shape) > 2
+            r = fresh(shape)
+            inner = [d for d in dirs if d != R]
+            for d in ([d for d in inner if d.count("/") == 1] if deep or quick else dirs):
+                for p in (["a.sql", "sub/"] if deep or quick else PATTERNS):
+                    r.run_case("shape%d" % si, shape, {d: {".sqlfluffignore": [p]}}, grid_queries(dirs, [R] if deep or quick else [R, inner[0]]))
+            queue.flush(force=False)
+            shutil.rmtree(r.top)
 
         # ---- D. seeded random trees, ignore files, flags
-        nrand = 40 if quick else 400
-        for i in range(nrand):
-            random_case(ctx, fresh, coq_ok, i)
+        for i in range(20 if quick else 400):
+            random_case(ctx, fresh, i)
+            queue.flush(force=False)
 
         # ---- E. malformed stream
         shape = full_shape(1)
-        top = fresh(shape, files={ROOT: ["a.sql", "B.SQL", "c.txt", "noext"], ROOT + "/sub": ["a.sql", "x.Sql"], ROOT + "/oth": []})
-        r = Runner(ctx, top)
+        r = fresh(shape, files={R: ["a.sql", "B.SQL", "c.txt", "noext"], R + "/sub": ["a.sql", "x.Sql"], R + "/oth": []})
         qs = []
-        for cwd in [ROOT, OUTSIDE]:
+        for cwd in [R, OUTSIDE]:
             for path in ["nope", "nope/x.sql", "", "sub/nope.sql"]:
                 for ine in (False, True):
                     for cnef in (False, True):
-                        qs.append(dict(mkq(cwd, ROOT, "malformed", path, ine=ine, cnef=cnef, exts=("",) if cnef else (".sql",)), oracle=False))
+                        qs.append(dict(mkq(cwd, R, "malformed", path, ine=ine, cnef=cnef, exts=("",) if cnef else (".sql",)), oracle=False))
         for exts in [(".sql",), (".SQL", ".txt"), ("",), (), ("sql",), (".sql", "noext")]:
             for ign in (True, False):
-                for target, isd in [(ROOT, True), (ROOT + "/sub", True), (ROOT + "/B.SQL", False), (ROOT + "/noext", False), (ROOT + "/sub/x.Sql", False)]:
-                    for kind, sp in spellings(ROOT, target, isd):
-                        qs.append(mkq(ROOT, target, kind, sp, ign=ign, exts=exts, is_dir=isd))
-        for ig in [{}, {ROOT: {".sqlfluffignore": ["*.sql"]}}, {ROOT: {".sqlfluffignore": ["noext", "x.*"]}},
-                   {ROOT: {".sqlfluff": None, "pyproject.toml": ["b.sql", "sub/"]}, ROOT + "/sub": {"pyproject.toml": None, ".sqlfluff": "x.Sql"}}]:
+                for target, isd in [(R, True), (R + "/sub", True), (R + "/B.SQL", False), (R + "/noext", False), (R + "/sub/x.Sql", False)]:
+                    for kind, sp in spellings(R, target, isd):
+                        qs.append(mkq(R, target, kind, sp, ign=ign, exts=exts, is_dir=isd))
+        for ig in [{}, {R: {".sqlfluffignore": ["*.sql"]}}, {R: {".sqlfluffignore": ["noext", "x.*"]}},
+                   {R: {".sqlfluff": None, "pyproject.toml": ["b.sql", "sub/"]}, R + "/sub": {"pyproject.toml": None, ".sqlfluff": "x.Sql"}}]:
             r.run_case("malformed", shape, ig, [dict(q) for q in qs], files="mixed-case extensions")
-        if coq_ok:
-            r.flush_model("malformed stream")
-        shutil.rmtree(top)
+        shutil.rmtree(r.top)
+        queue.flush()
     finally:
         shutil.rmtree(tmp, ignore_errors=True)
-    ctx.coverage_extra["real_paths_from_path_calls"] = ctx.evaluations
+    ctx.coverage_extra["real_paths_from_path_calls"] = ctx.evaluations - ctx.dist.get("posixpath-helper", 0)
 
 
-def random_case(ctx, fresh, coq_ok, i):
+def random_case(ctx, fresh, i):
     rng = ctx.rng
     names = ["sub", "oth", "a.sql", "Sub"]   # a directory may be called a.sql
 
@@ -664,8 +750,7 @@ def random_case(ctx, fresh, coq_ok, i):
     shape = rshape(3)
     dirs = shape_dirs(shape)
     files = {d: [f for f in FILES + ["A.SQL", "sub"] if rng.random() < 0.6 and f not in shape_sub(shape, d)] for d in dirs}
-    top = fresh(shape, files)
-    r = Runner(ctx, top)
+    r = fresh(shape, files)
     ignores = {}
     for d in dirs:
         if rng.random() < 0.35:
@@ -673,7 +758,7 @@ def random_case(ctx, fresh, coq_ok, i):
             pats = [rng.choice(PATTERNS + ["Sub/", "/sub/*.sql", "**/b.sql", "oth", "#x", ""]) for _ in range(k)]
             loader = rng.choice([".sqlfluffignore", ".sqlfluffignore", ".sqlfluff", "pyproject.toml"])
             if loader == ".sqlfluff":
-                pats = [p for p in pats if p and "#" not in p] or None
+                pats = [p for p in pats if p and "#" not in p]
                 ignores[d] = {loader: ",".join(pats) if pats else None}
             elif loader == "pyproject.toml":
                 ignores[d] = {loader: [p for p in pats if p] or None}
@@ -681,20 +766,14 @@ def random_case(ctx, fresh, coq_ok, i):
                 ignores[d] = {loader: pats}
     cwds = rng.sample(dirs, min(len(dirs), 2)) + [OUTSIDE]
     exts = rng.choice([(".sql",), (".sql",), (".sql", ".txt"), ("",)])
+    flag = {}
     qs = []
     for q in grid_queries(dirs, cwds, wps=("=", rng.choice(dirs))):
         q["exts"] = list(exts)
-        q["ign"] = rng.random() < 0.9
+        q["ign"] = flag.setdefault((q["cwd"], q["wp"], q["target"]), rng.random() < 0.9)   # one flag per group of spellings
         qs.append(q)
-    # ign is part of the group key, so spellings of one group must share it
-    by = {}
-    for q in qs:
-        k = (q["cwd"], q["wp"], q["target"])
-        q["ign"] = by.setdefault(k, q["ign"])
     r.run_case("random%d" % i, shape, ignores, qs, files=files)
-    if coq_ok:
-        r.flush_model("random trees")
-    shutil.rmtree(top)
+    shutil.rmtree(r.top)
 
 
 def shape_sub(shape, d):
@@ -702,3 +781,30 @@ def shape_sub(shape, d):
     for n in d.split("/")[1:]:
         cur = cur[n]
     return cur
+
+
+def replay(ctx, data):
+    """./check C25 --replay <file>: rebuild the tree of a violation record and show the selections of the two spellings"""
+    import logging
+    from sqlfluff.core.linter import discovery
+    logging.getLogger("sqlfluff.linter").setLevel(logging.ERROR)
+    inp = data["replay"]["input"]
+    tmp = os.path.realpath(tempfile.mkdtemp(prefix="verif-c25-", dir=os.environ.get("TMPDIR") or "/var/tmp"))
+    home = os.getcwd()
+    try:
+        build_shape(tmp, inp["shape"], inp["files"] if isinstance(inp["files"], dict) else None)
+        write_ignores(tmp, inp["ignore_files"])
+        os.chdir(os.path.join(tmp, inp["cwd"]))
+        out = {}
+        for k in ("path", "reference_path"):
+            p = inp[k].replace("<top>", tmp)
+            kw = {} if inp["working_path"] is None else {"working_path": os.path.join(tmp, inp["working_path"])}
+            res = discovery.paths_from_path(p, ignore_files=inp.get("ignore_files_flag", True), target_file_exts=tuple(inp.get("exts", [".sql"])), **kw)
+            out[k] = sorted(os.path.normpath(os.path.join(os.getcwd(), x)).replace(tmp, "<top>") for x in res)
+            print("paths_from_path(%r) from cwd <top>/%s selects %s" % (inp[k], inp["cwd"], out[k]))
+        same = out["path"] == out["reference_path"]
+        print("same selection" if same else "DIFFERENT selections: the violation reproduces")
+        return 0 if same else 1
+    finally:
+        os.chdir(home)
+        shutil.rmtree(tmp, ignore_errors=True)
